@@ -86,6 +86,16 @@ def run(chk):
                     r = getattr(sc, fn)()
                     if set(r.keys()) != {a[0] for a in acs}:
                         chk.violation("selection-all:%s" % fn, dict(kind="multi", function=fn, got=sorted(r.keys())))
+                    # what is reported for an aircraft does not depend on which other aircraft the same call also reports
+                    if fn != "MAC":
+                        for nm in r:
+                            one = getattr(gen.build_scene(MX, sd, acs), fn)(aircraft=nm)
+                            allr = getattr(gen.build_scene(MX, sd, acs), fn)()
+                            bad = api.compare({nm: one[nm]}, {nm: allr[nm]}, rtol=2e-6, atol=2e-7)
+                            if bad:
+                                chk.violation("selection-all-vs-one:%s" % fn, dict(kind="multi", what="result for one aircraft depends on the selection",
+                                                                                   function=fn, aircraft_name=nm, scene=sd, aircraft=acs, differences=bad[:6]))
+                                break
                 try:
                     sc.set_aircraft_state(state={"velocity": 50.0})
                     chk.violation("selection:unnamed-accepted", dict(kind="multi", what="set_aircraft_state without a name in a multi-aircraft scene"))
